@@ -33,6 +33,33 @@ Definition pair_of (e : errk) : Z * Z :=
   | ERecreate => (11, 0) | ECanceled => (10, 0)
   end.
 
+(** ops a real connection went through between two observation points (harness: qlog packet events with their
+    virtual time, the stop at its armed deadline, flags that flipped) *)
+Inductive op :=
+| OpRecv (t : Z)                       (* a packet was unpacked *)
+| OpSent (t : Z) (ackEliciting : bool) (* a packet was registered as sent *)
+| OpKeepAlive (now pto : Z)            (* keepAlivePingSent got set without the timer having fired: must have been due *)
+| OpHsDone
+| OpTP (peerIdle peerAdv : Z)          (* applyTransportParams *)
+| OpTimer (t pto : Z).                 (* the loop was woken at its armed deadline *)
+
+Definition replay_op (s : st) (o : op) : option st :=
+  match o with
+  | OpRecv t => Some (step s (EvRecv t))
+  | OpSent t true => Some (step s (EvSentAE t))
+  | OpSent _ false => Some s
+  | OpKeepAlive now pto =>
+    match decide s now pto with DKeepAlive => Some (step s (EvWake now pto)) | _ => None end
+  | OpHsDone => Some (step s EvHsDone)
+  | OpTP p a => Some (step s (EvTP p a))
+  | OpTimer t pto => Some (step s (EvWake t pto))
+  end.
+Fixpoint replay (s : st) (ops : list op) : option st :=
+  match ops with
+  | [] => Some s
+  | o :: r => match replay_op s o with Some s' => replay s' r | None => None end
+  end.
+
 Inductive case :=
 | SnapCase (s : snap) (implIdleStart implNextIdle implNextKA : Z) (timer : option Z)
 | WakeCase (s : snap) (now : Z) (obs : Z)   (* 0 continue, 1 keep-alive PING, 2 handshake timeout, 3 idle timeout *)
@@ -40,6 +67,7 @@ Inductive case :=
 | CloseCase (client sentFirstPacket : bool) (reqs : list (Z * Z * bool))
             (obsCause obsApi : Z * Z) (sentClose blackhole : bool) (peer : option (Z * Z)) (routing : Z)
 | ClosedConnCase (start : Z) (replies : list bool)
+| HistCase (pre : snap) (ops : list op) (post : snap) (closed : Z)   (* closed: 0 open, 2 handshake timeout, 3 idle timeout *)
 | EarlyExitCase (routing : Z) (apiClosed : option bool).  (* Dial whose StartHandshake fails: what is left behind
                                                              (apiClosed only observable while the Conn is still registered) *)
 
@@ -49,6 +77,7 @@ Inductive obs :=
 | ParamsObs (idle kai : Z)
 | CloseObs (cause api : Z * Z) (sentClose : bool) (peer : option (Z * Z)) (routing : Z)
 | ClosedConnObs (replies : list bool)
+| HistObs (fields : option (Z * Z * bool * bool * Z * Z * Z))
 | EarlyExitObs (routing : Z) (apiClosed : bool).
 
 Definition decision_code (d : decision) : Z :=
@@ -79,6 +108,18 @@ Definition model_obs (c : case) : obs :=
                (routing_after a)
     end
   | ClosedConnCase start replies => ClosedConnObs (closed_replies start (List.length replies))
+  | HistCase pre ops _ _ =>
+    match replay (st_of pre) ops with
+    | None => HistObs None
+    | Some m =>
+      HistObs (Some (lastRecv m, firstAE m, kaSent m, hsComplete m, idleTimeout m, kaInterval m,
+                     match closeErr m with
+                     | None => 0
+                     | Some {| ce_err := EHsTimeout; ce_immediate := true |} => 2
+                     | Some {| ce_err := EIdle; ce_immediate := true |} => 3
+                     | Some _ => 9
+                     end))
+    end
   | EarlyExitCase _ _ =>
     (* StartHandshake fails: destroyImpl(err), then the regular close path *)
     let ce := start_failure (EOther 0) in
@@ -99,7 +140,10 @@ Definition check_case (c : case) : bool :=
     (sn_hsTimeout s =? ht) && (is =? is') && (ni =? ni') && (nk =? nk') &&
     match timer with Some t => t =? d | None => true end
   | WakeCase _ _ o, WakeObs d => o =? d
-  | ParamsCase _ _ _ _ oi ok, ParamsObs i k => (oi =? i) && (ok =? k)
+  | ParamsCase _ peerIdle peerAdv _ oi ok, ParamsObs i k =>
+    (oi =? i) && (ok =? k) &&
+    (* the parser: what the peer advertised, raised to MinRemoteIdleTimeout *)
+    (if 0 <? peerAdv then peerIdle =? parse_idle peerAdv else true)
   | CloseCase _ _ _ cause api sent blackhole peer routing, CloseObs cause' api' sent' peer' routing' =>
     pair_eqb cause cause' && pair_eqb api api' && Bool.eqb sent sent' && (routing =? routing') &&
     (blackhole ||
@@ -108,6 +152,9 @@ Definition check_case (c : case) : bool :=
      | None, None => true
      | _, _ => false
      end)
+  | HistCase _ _ post closed, HistObs (Some (lr, fa, ks, hs, idle, kai, cl)) =>
+    (lr =? sn_lastRecv post) && (fa =? sn_firstAE post) && Bool.eqb ks (sn_kaSent post) && Bool.eqb hs (sn_hs post) &&
+    (idle =? sn_idle post) && (kai =? sn_kai post) && (cl =? closed)
   | EarlyExitCase r c, EarlyExitObs r' c' => (r =? r') && match c with Some b => Bool.eqb b c' | None => true end
   | ClosedConnCase _ r, ClosedConnObs r' => bools_eqb r r'
   | _, _ => false
